@@ -6,7 +6,7 @@ from fractions import Fraction as Fr
 from ..nf import Rat, Poly, C
 from ..source import Unsupported
 from ..xlate import Interp, Frame, Obj, Raised, _RaisedExc
-from .common import same, show
+from .common import same as same_form, show
 from .rxnfix import get_public
 
 EOS = 'pmutt.eos'
@@ -28,6 +28,64 @@ RANGE = {'T': (Fr(50), Fr(3000)), 'P': (Fr(1, 1000), Fr(1000)), 'n': (Fr(1, 1000
 V_RANGE = (Fr(1, 10 ** 9), Fr(10 ** 6))
 LEN_REAL = re.compile(r'len<REAL\{ROOT#\d+\}>')      # number of real roots of a cubic: 1 or 3
 LEN_ROOT = re.compile(r'len<ROOT#\d+>')             # number of roots of a cubic
+
+
+# Spellings.  The unit model keeps a unit factor as an atom (U<bar>) and the gas constant as kb*Na, so `P * 1.e5`,
+# `c.R('kJ/mol/K') * 1000.` or the literal 8.3144598 have another normal form than what the package writes today although
+# the tables of pmutt.constants give them the very same value.  Two results are therefore the same when their normal
+# forms agree OR when they agree after the atoms of the unit model are given the values written in the tables (exact
+# Fractions of the digits; kb stands for R/Na, the unit model's reading of c.R).  Nothing is loosened: both are exact
+# identities in the state variables.
+_TABLE = {}         # atom of the unit model -> value from the literal tables, for the run in progress
+
+
+def _use_tables(values):
+    _TABLE.clear()
+    _TABLE.update({k: v for k, v in values.items() if k.startswith('U<')})
+    if values.get('Na') and values.get('R[J/mol/K]'):
+        _TABLE['Na'] = values['Na']
+        _TABLE['kb'] = values['R[J/mol/K]'] / values['Na']
+
+
+def in_numbers(r):
+    """the normal form r with the atoms of the unit model replaced by their table values (None: not possible)"""
+    def poly(p):
+        tot = C(0)
+        for k, c in p.t.items():
+            term = C(c)
+            for a_, e in k:
+                if a_ in _TABLE:
+                    if Fr(e).denominator != 1:
+                        return None
+                    term = term * C(_TABLE[a_] ** int(e))
+                else:
+                    term = term * Rat.atom(a_, e)
+            tot = tot + term
+        return tot
+    out = poly(r.n)
+    for p_, e in r.f.values():
+        d = poly(p_)
+        if out is None or d is None or d.iszero():
+            return None
+        for _ in range(e):
+            out = out / d
+    return out
+
+
+def same(a, b):
+    if same_form(a, b):
+        return True
+    if _TABLE and isinstance(a, Rat) and isinstance(b, Rat):
+        na, nb = in_numbers(a), in_numbers(b)
+        return na is not None and nb is not None and na.eq(nb)
+    return False
+
+
+def is_zero(r):
+    if r.iszero():
+        return True
+    nr = in_numbers(r) if _TABLE else None
+    return nr is not None and nr.iszero()
 
 
 def _names(k):
@@ -290,6 +348,8 @@ def check(run, repo):
     run.undecided = ['root-finding numerics (conditioning of the cubic)',
                      'comparisons inside the code are decided on the whole box or at the witness points listed in '
                      'the evidence, not on every sub-region of the box']
+    values = table_numbers(repo)
+    _use_tables(values)
     # witness points first (concrete instances before symbolic ones): all comparisons decided at that point
     pts = witnesses(run.tier)
     for p in pts:
@@ -301,7 +361,8 @@ def check(run, repo):
     # read (every entry an atom with the value written in the source) and the state that comes back is compared as a
     # number - two spellings of one constant that differ in the ninth digit (R and kB*NA) are one constant for the
     # unit model, but not on the liquid root, where the pressure is a small difference of two large terms
-    values = table_numbers(repo)
+    run.sample({'table_numbers': {k: '%.12g' % float(values[k]) for k in ('R[J/mol/K]', 'kb[J/K]', 'Na', 'U<bar>')
+                                  if k in values}})
     for p in pts:
         table_values(_Suffixed(run, ' [table values at %s]' % p.label), repo, p, values)
     # all states at once: comparisons decided only when they hold on the whole box
@@ -572,7 +633,7 @@ def van_der_waals(run, repo, I, box, ci, vci, ig, vw, state, a, b, RJ, toPa, fir
         # the leading coefficients, whatever it is (a number, 1/P for the monic form, a unit factor); np.roots is
         # scale invariant
         lead_ok = _never_zero(box, co[0])
-        okc = lead_ok and (poly * P_SI - want * co[0]).iszero()
+        okc = lead_ok and is_zero(poly * P_SI - want * co[0])
         run.check(okc, 'REF.cubic', 'vanDerWaalsEOS.get_Vm', 'coefficients gas=%s' % gname,
                   'cubic is %s but Vm^2[(P+a/Vm^2)(Vm-b)-RT] = %s%s'
                   % (show(poly), show(want), '' if lead_ok else ' (leading coefficient not of one sign)'),
@@ -950,6 +1011,9 @@ MUTANTS = [
      'expect': ('NUM.roundtrip', 'vanDerWaalsEOS.get_P'),
      'edits': [(E, "P_SI, -(P_SI * self.b + c.R('J/mol/K') * T), self.a,",
                 "P_SI, -(P_SI * self.b + c.kb('J/K') * c.Na * T), self.a,")]},
+    {'name': 'cubic over the gas constant rounded to 8.314', 'expect': ('REF.cubic', 'get_Vm'),
+     'edits': [(E, "P_SI, -(P_SI * self.b + c.R('J/mol/K') * T), self.a,",
+                "P_SI, -(P_SI * self.b + 8.314 * T), self.a,")]},
     {'name': 'cubic over R in L atm times 101.325', 'expect': ('NUM.roundtrip', 'vanDerWaalsEOS.get_'),
      'edits': [(E, "P_SI, -(P_SI * self.b + c.R('J/mol/K') * T), self.a,",
                 "P_SI, -(P_SI * self.b + c.R('L atm/mol/K') * 101.325 * T), self.a,")]},
@@ -982,9 +1046,9 @@ MUTANTS = [
                (E, "        return 8. * self.a / 27. / self.b / c.R('J/mol/K')",
                 "        if self._Tc is None:\n            self._Tc = 8. * self.a / 27. / self.b / c.R('J/mol/K')\n"
                 "        return self._Tc")]},
-    {'name': 'critical volume remembered per b (the amount is not in the key)', 'expect': ('REF.critical', 'get_Vc'),
+    {'name': 'critical volume remembered per gas (the amount is not in the key)', 'expect': ('REF.critical', 'get_Vc'),
      'edits': [(E, 'class IdealGasEOS(_pmuttBase):', '_VC = {}\n\n\nclass IdealGasEOS(_pmuttBase):'),
-               (E, '        return 3. * n * self.b', '        return _VC.setdefault(self.b, 3. * n * self.b)')]},
+               (E, '        return 3. * n * self.b', '        return _VC.setdefault((self.a, self.b), 3. * n * self.b)')]},
     {'name': 'from_critical remembers the object per Tc', 'expect': ('ALG.roundtrip', 'get_Pc'),
      'edits': [(E, 'class IdealGasEOS(_pmuttBase):', '_FC = {}\n\n\nclass IdealGasEOS(_pmuttBase):'),
                (E, '        return cls(a=a, b=b)', '        return _FC.setdefault(Tc, cls(a=a, b=b))')]},
@@ -1067,6 +1131,16 @@ EQUIV = [
      'edits': [(E, "        P_SI = P * c.convert_unit(initial='bar', final='Pa')\n        Vm = np.roots([",
                 "        if T < 50. or P > 1000.:\n            raise ValueError('outside the fitted range')\n"
                 "        P_SI = P * c.convert_unit(initial='bar', final='Pa')\n        Vm = np.roots([")]},
+    # spellings that have the same value in the tables of pmutt.constants
+    {'name': 'get_T: bar to Pa as the literal 1.e5',
+     'edits': [(E, "        return (P*c.convert_unit(initial='bar', final='Pa') + self.a/Vm**2) \\\n",
+                "        return (P*1.e5 + self.a/Vm**2) \\\n")]},
+    {'name': 'cubic over R in kJ times 1000',
+     'edits': [(E, "P_SI, -(P_SI * self.b + c.R('J/mol/K') * T), self.a,",
+                "P_SI, -(P_SI * self.b + c.R('kJ/mol/K') * 1000. * T), self.a,")]},
+    {'name': 'cubic over the literal 8.3144598',
+     'edits': [(E, "P_SI, -(P_SI * self.b + c.R('J/mol/K') * T), self.a,",
+                "P_SI, -(P_SI * self.b + 8.3144598 * T), self.a,")]},
     {'name': 'cubic over R in cal times the calorie, everywhere the same',
      'edits': [(E, "c.R('J/mol/K')", "(c.R('cal/mol/K') * c.convert_unit(initial='cal', final='J'))", 0, k)
                for k in (6, 5, 4, 3, 2, 1)]},
